@@ -421,11 +421,13 @@ impl<'a> Skel<'a> {
       match t.extends_or_implements_nodes() {
         None => self.p("NoImpl".into()),
         Some(n) => {
+          let ia = self.t.len();
           self.p(format!("Impl/{}(", n.nodes.len()));
           for x in &n.nodes {
             self.annot_id(x);
           }
           self.close();
+          self.mark(key(&n.location, "impl"), ia);
         }
       }
       match t.type_definition() {
@@ -574,6 +576,9 @@ type ClassTable<'a> = HashMap<(ModuleReference, PStr), &'a Toplevel<T>>;
 /// (declaring module, class, member, is static function) -> modules (other than the declaring one) with a use
 type Uses = HashMap<(ModuleReference, PStr, PStr, bool), BTreeSet<ModuleReference>>;
 
+/// class -> modules in which it instantiates a bounded type parameter (explicitly or by inference)
+type Insts = HashMap<(ModuleReference, PStr), BTreeSet<ModuleReference>>;
+
 struct Collector<'a> {
   heap: &'a Heap,
   classes: &'a ClassTable<'a>,
@@ -589,6 +594,7 @@ struct Collector<'a> {
   fresh_module: &'a str,
   sites: Vec<Site>,
   uses: &'a mut Uses,
+  insts: &'a mut Insts,
   /// names of all methods declared by any interface of the program
   iface_method_names: &'a HashSet<PStr>,
 }
@@ -712,6 +718,33 @@ impl<'a> Collector<'a> {
     None
   }
 
+  /// for a call `obj.name(...)`: which declared parameters are annotated `int` (None: declaration not found)
+  fn declared_int_params(&self, obj_t: &Type, name: PStr) -> Option<Vec<bool>> {
+    let Type::Nominal(n) = obj_t else { return None };
+    let Some(Toplevel::Class(c)) = self.classes.get(&(n.module_reference, n.id)) else { return None };
+    let is_int_annot =
+      |a: &annotation::T| matches!(a, annotation::T::Primitive(_, _, annotation::PrimitiveTypeKind::Int));
+    let want_method = !n.is_class_statics;
+    let found: Vec<_> =
+      c.members.members.iter().filter(|m| m.decl.name.name == name && m.decl.is_method == want_method).collect();
+    if found.len() == 1 {
+      return Some(found[0].decl.parameters.parameters.iter().map(|p| is_int_annot(&p.annotation)).collect());
+    }
+    if !found.is_empty() || !n.is_class_statics {
+      return None;
+    }
+    match &c.type_definition {
+      Some(TypeDefinition::Struct { fields, .. }) if name.as_str(self.heap) == "init" => {
+        Some(fields.iter().map(|f| is_int_annot(&f.annotation)).collect())
+      }
+      Some(TypeDefinition::Enum { variants, .. }) => {
+        let v = variants.iter().find(|v| v.name.name == name)?;
+        Some(v.associated_data_types.iter().flat_map(|l| &l.annotations).map(is_int_annot).collect())
+      }
+      _ => None,
+    }
+  }
+
   fn targ_sites(
     &mut self,
     ta: &annotation::TypeArguments,
@@ -803,6 +836,15 @@ impl<'a> Collector<'a> {
           .flat_map(|tp| &tp.parameters)
           .map(|p| p.bound.as_ref().map(|b| b.id.name))
           .collect();
+        if let Some(ta) = &id.type_arguments {
+          for (b, a) in bounds.iter().zip(&ta.arguments) {
+            if let (Some(b), annotation::T::Id(arg)) = (b, a) {
+              if *b != arg.id.name {
+                self.insts.entry((arg.module_reference, arg.id.name)).or_default().insert(self.mref);
+              }
+            }
+          }
+        }
         match &id.type_arguments {
           Some(ta) => self.targ_sites(ta, &bounds, false),
           None => {
@@ -871,6 +913,7 @@ impl<'a> Collector<'a> {
     obj: &expr::E<T>,
     ta: &Option<annotation::TypeArguments>,
     is_method_access: bool,
+    inferred: &[T],
   ) {
     self.expr(obj);
     for a in ta.iter().flat_map(|t| &t.arguments) {
@@ -897,6 +940,15 @@ impl<'a> Collector<'a> {
     if let Some((m1, c, is_static, bounds)) = &resolved {
       if *m1 != self.mref {
         self.uses.entry((*m1, *c, name.name, *is_static)).or_default().insert(self.mref);
+      }
+      if inferred.len() == bounds.len() {
+        for (b, t) in bounds.iter().zip(inferred) {
+          if let (Some(b), Type::Nominal(n)) = (b, t.as_ref()) {
+            if !n.is_class_statics && *b != n.id {
+              self.insts.entry((n.module_reference, n.id)).or_default().insert(self.mref);
+            }
+          }
+        }
       }
       match ta {
         Some(ta) => self.targ_sites(ta, bounds, true),
@@ -1012,10 +1064,10 @@ impl<'a> Collector<'a> {
         }
       }
       expr::E::FieldAccess(f) => {
-        self.member_access(&f.common.loc, &f.field_name, &f.object, &f.explicit_type_arguments, false)
+        self.member_access(&f.common.loc, &f.field_name, &f.object, &f.explicit_type_arguments, false, &[])
       }
       expr::E::MethodAccess(f) => {
-        self.member_access(&f.common.loc, &f.method_name, &f.object, &f.explicit_type_arguments, true)
+        self.member_access(&f.common.loc, &f.method_name, &f.object, &f.explicit_type_arguments, true, &f.inferred_type_arguments)
       }
       expr::E::Unary(u) => self.expr(&u.argument),
       expr::E::Call(c) => {
@@ -1028,6 +1080,29 @@ impl<'a> Collector<'a> {
         let Some((a, b)) = self.range(&c.common.loc, "expr") else { return };
         if !arity_known || self.toks[a] != format!("Call/{n}(") {
           return;
+        }
+        // an argument for a parameter declared `int` replaced by a string literal
+        if let expr::E::MethodAccess(ma) = c.callee.as_ref() {
+          if let Some(ints) = self.declared_int_params(ma.object.type_(), ma.method_name.name) {
+            if ints.len() == n {
+              for (i, arg) in c.arguments.expressions.iter().enumerate() {
+                if !ints[i] || !is_int(arg.type_()) {
+                  continue;
+                }
+                let l = arg.loc();
+                if let (Some((a0, b0)), Some((s, en))) = (self.range(&l, "expr"), self.text.span(&l)) {
+                  self.push(
+                    "operand-type",
+                    "argument",
+                    s,
+                    en,
+                    "\"s\"".into(),
+                    vec![Splice { at: a0, del: b0 - a0, ins: vec!["Str(s)".into()] }],
+                  );
+                }
+              }
+            }
+          }
         }
         if let Some(e) = self.text.off(c.arguments.loc.end) {
           if e > 0 && &self.text.s[e - 1..e] == ")" {
@@ -1297,7 +1372,7 @@ impl<'a> Collector<'a> {
 
 /// private-member / private-class sites need the uses of the whole program
 fn visibility_sites(prog: &Program, skels: &HashMap<ModuleReference, (Vec<String>, HashMap<Key, (usize, usize)>, HashSet<Key>)>,
-                    uses: &Uses, iface_method_names: &HashSet<PStr>, sites: &mut Vec<Site>) {
+                    uses: &Uses, insts: &Insts, iface_method_names: &HashSet<PStr>, sites: &mut Vec<Site>) {
   let heap = &prog.heap;
   for (m1, module) in &prog.checked {
     let m1name = m1.pretty_print(heap);
@@ -1340,6 +1415,41 @@ fn visibility_sites(prog: &Program, skels: &HashMap<ModuleReference, (Vec<String
         }
       }
       let Toplevel::Class(c) = t else { continue };
+      // bound-violation by un-implementing: the class keeps its methods but no longer declares any supertype,
+      // so every instantiation of a bounded type parameter with it violates the bound
+      if let (Some(nodes), Some(users)) = (&c.extends_or_implements_nodes, insts.get(&(*m1, c.name.name))) {
+        let ik = key(&nodes.location, "impl");
+        if let (false, Some((ia, ib)), Some(mut s0), Some(last)) =
+          (dup.contains(&ik), idx.get(&ik), text.off(nodes.location.start), nodes.nodes.last())
+        {
+          let bytes = text.s.as_bytes();
+          if bytes.get(s0) != Some(&b':') {
+            // the colon precedes the first interface name
+            let mut p = s0;
+            while p > 0 && (bytes[p - 1] == b' ' || bytes[p - 1] == b'\n' || bytes[p - 1] == b'\t') {
+              p -= 1;
+            }
+            if p > 0 && bytes[p - 1] == b':' {
+              s0 = p - 1;
+            }
+          }
+          if let Some(e0) = text.off(last.location.end) {
+            if bytes.get(s0) == Some(&b':') && s0 < e0 && !users.is_empty() {
+              sites.push(Site {
+                kind: "bound-violation",
+                sub: "unimplement",
+                offending: users.iter().map(|m| m.pretty_print(heap)).collect(),
+                edit: *m1,
+                start: s0,
+                end: e0,
+                replacement: String::new(),
+                ops: vec![Splice { at: *ia, del: ib - ia, ins: vec!["NoImpl".into()] }],
+                lexical: false,
+              });
+            }
+          }
+        }
+      }
       let implements = c.extends_or_implements_nodes.is_some();
       for d in &c.members.members {
         let decl = &d.decl;
@@ -1428,6 +1538,7 @@ fn collect_sites(prog: &Program) -> (Vec<Site>, HashMap<ModuleReference, (Vec<St
   }
   let (fl, fu, fm) = fresh_names(prog);
   let mut uses: Uses = HashMap::new();
+  let mut insts: Insts = HashMap::new();
   let mut sites = vec![];
   let mut order: Vec<&ModuleReference> = prog.checked.keys().collect();
   order.sort_by_key(|m| m.pretty_print(heap));
@@ -1450,12 +1561,13 @@ fn collect_sites(prog: &Program) -> (Vec<Site>, HashMap<ModuleReference, (Vec<St
       fresh_module: &fm,
       sites: vec![],
       uses: &mut uses,
+      insts: &mut insts,
       iface_method_names: &iface_method_names,
     };
     c.module(module);
     sites.append(&mut c.sites);
   }
-  visibility_sites(prog, &skels, &uses, &iface_method_names, &mut sites);
+  visibility_sites(prog, &skels, &uses, &insts, &iface_method_names, &mut sites);
   (sites, skels)
 }
 
